@@ -169,7 +169,7 @@ def set_matched_filter(tokens, termset):
              token should be highlighted
     """
     for t in tokens:
-        t.matched = t.text in termset
+        t.matched = t.text in termset and not t.stopped
         yield t
 
 
